@@ -12,44 +12,6 @@ open Tetl
 @[simp] theorem error_bind {ε α β} (e : ε) (f : α → Except ε β) : (Except.error e >>= f) = Except.error e := rfl
 @[simp] theorem pure_eq_ok {ε α} (a : α) : (pure a : Except ε α) = Except.ok a := rfl
 
-/-! ### finite-domain transfer for cctype / cwctype -/
-
-/-- a Boolean statement that evaluates to `true` at every point of `-1, 0, …, 255` holds for every
-    `Int` in `[-1, 255]` -/
-theorem forall_ctype_range {p : Int → Bool} (h : (List.range 257).all (fun n => p ((n : Int) - 1)) = true) :
-    ∀ c : Int, -1 ≤ c → c ≤ 255 → p c = true := by
-  intro c h1 h2
-  rw [List.all_eq_true] at h
-  have := h (c + 1).toNat (by simp; omega)
-  have e : (((c + 1).toNat : Nat) : Int) - 1 = c := by omega
-  rwa [e] at this
-
-theorem forall_lt_of_all {p : Nat → Bool} (N : Nat) (h : (List.range N).all p = true) :
-    ∀ c, c < N → p c = true := by
-  intro c hc
-  rw [List.all_eq_true] at h
-  exact h c (by simpa using hc)
-
-theorem contains_high (t : List Nat) (ht : t.all (· < 128) = true) (c : Nat) (hc : 128 ≤ c) :
-    t.contains c = false := by
-  rw [List.all_eq_true] at ht
-  cases h : t.contains c with
-  | false => rfl
-  | true =>
-    have hm : c ∈ t := by simpa using h
-    have := ht c hm
-    simp at this; omega
-
-theorem mapTbl_high (src dst : List Nat) (ht : src.all (· < 128) = true) (c : Nat) (hc : 128 ≤ c) :
-    Spec.mapTbl src dst c = c := by
-  rw [List.all_eq_true] at ht
-  have : (src.zip dst).find? (fun pr => pr.1 == c) = none := by
-    rw [List.find?_eq_none]
-    intro pr hpr
-    have h1 := ht pr.1 (List.of_mem_zip hpr).1
-    simp at h1 ⊢; omega
-  simp [Spec.mapTbl, this]
-
 /-! ### checked reads and writes -/
 
 theorem rd_of_drop_cons {α} {b : List α} {i : Nat} {x : α} {l : List α} (h : b.drop i = x :: l) : rd b i = .ok x := by
@@ -565,6 +527,216 @@ theorem strchrLoop_spec (b : Buf) (c : Nat) : ∀ (l : List Nat) (s f : Nat), b.
           funext k
           simp only [Function.comp]
           omega
+
+
+/-! ### truncating division -/
+
+theorem sgn_natCast (a : Nat) : Spec.sgn (a : Int) = if a = 0 then 0 else 1 := by
+  unfold Spec.sgn; split <;> split <;> omega
+theorem sgn_neg_natCast (a : Nat) : Spec.sgn (-(a : Int)) = if a = 0 then 0 else -1 := by
+  unfold Spec.sgn; split <;> split <;> omega
+
+theorem tdiv_eq_divQuot (x y : Int) : Int.tdiv x y = Spec.divQuot x y := by
+  obtain ⟨a, rfl | rfl⟩ : ∃ a : Nat, x = a ∨ x = -a := ⟨x.natAbs, Int.natAbs_eq x⟩ <;>
+  obtain ⟨b, rfl | rfl⟩ : ∃ b : Nat, y = b ∨ y = -b := ⟨y.natAbs, Int.natAbs_eq y⟩ <;>
+  simp only [Spec.divQuot, sgn_natCast, sgn_neg_natCast, Int.natAbs_natCast, Int.natAbs_neg, Int.neg_tdiv, Int.tdiv_neg,
+    Int.natCast_tdiv_eq_ediv, Int.neg_neg] <;>
+  rcases Nat.eq_zero_or_pos a with rfl | ha <;> rcases Nat.eq_zero_or_pos b with rfl | hb <;>
+  simp [Nat.pos_iff_ne_zero.mp, *] <;> (try (have := Nat.pos_iff_ne_zero.mp ha; have := Nat.pos_iff_ne_zero.mp hb; simp [*]))
+
+
+theorem divRem_eq_tmod (x y : Int) : Spec.divRem x y = Int.tmod x y := by
+  rw [Spec.divRem, ← tdiv_eq_divQuot, Int.tmod_def, Int.mul_comm]
+
+/-! ### spans, sets, reverse and substring searches -/
+
+theorem take_length_takeWhile {α} (p : α → Bool) : ∀ l : List α, l.take (l.takeWhile p).length = l.takeWhile p
+  | [] => by simp
+  | x :: l => by
+    by_cases h : p x
+    · simp [List.takeWhile_cons, h, take_length_takeWhile p l]
+    · simp [List.takeWhile_cons, h]
+
+theorem take_strlen_eq_cstr (b : Buf) (p : Nat) : (b.drop p).take (Spec.strlen b p) = Spec.cstr b p := by
+  unfold Spec.strlen Spec.cstr
+  exact take_length_takeWhile _ _
+
+theorem isLegalChar_spec (incl : Bool) (t : Buf) (q ch : Nat) : ∀ (r : Nat) (lt : List Nat) (i : Nat), t.drop (q + i) = lt →
+    r ≤ lt.length → isLegalChar incl t q ch r i = .ok (if (lt.take r).contains ch then incl else !incl) := by
+  intro r
+  induction r with
+  | zero => intro lt i _ _; simp [isLegalChar]
+  | succ r ih =>
+    intro lt i hd hr
+    cases lt with
+    | nil => simp at hr
+    | cons x lt =>
+      simp only [isLegalChar, rd_of_drop_cons hd, ok_bind, List.take_succ_cons, List.contains_cons]
+      by_cases hx : x = ch
+      · simp [hx]
+      · have hd' : t.drop (q + (i + 1)) = lt := by
+          have := drop_succ_of_drop_cons hd
+          rwa [Nat.add_assoc] at this
+        have hne : (ch == x) = false := by simp; exact fun e => hx e.symm
+        rw [if_neg hx, ih lt (i + 1) hd' (by simpa using hr), hne]
+        simp
+
+theorem strspnLoop_spec (incl : Bool) (b : Buf) (p : Nat) (t : Buf) (q srcLen : Nat) (hlen : srcLen ≤ (t.drop q).length) :
+    ∀ (r : Nat) (l : List Nat) (i : Nat), b.drop (p + i) = l → r ≤ l.length →
+    strspnLoop incl b p t q srcLen r i =
+      .ok (i + ((l.take r).takeWhile (fun x => if ((t.drop q).take srcLen).contains x then incl else !incl)).length) := by
+  intro r
+  induction r with
+  | zero => intro l i _ _; simp [strspnLoop]
+  | succ r ih =>
+    intro l i hd hr
+    cases l with
+    | nil => simp at hr
+    | cons x l =>
+      have hd' : b.drop (p + (i + 1)) = l := by
+        have := drop_succ_of_drop_cons hd
+        rwa [Nat.add_assoc] at this
+      simp only [strspnLoop, rd_of_drop_cons hd, ok_bind, isLegalChar_spec incl t q x srcLen (t.drop q) 0 rfl hlen,
+        List.take_succ_cons, List.takeWhile_cons]
+      by_cases hl : (if ((t.drop q).take srcLen).contains x then incl else !incl) = true
+      · rw [hl, ih l (i + 1) hd' (by simpa using hr)]
+        simp; omega
+      · have hl' : (if ((t.drop q).take srcLen).contains x then incl else !incl) = false := by simpa using hl
+        rw [hl']
+        simp
+
+
+theorem strlen_le_drop (b : Buf) (p : Nat) : Spec.strlen b p ≤ (b.drop p).length := by
+  unfold Spec.strlen Spec.cstr; exact length_takeWhile_le _ _
+
+theorem rd_add_eq {b : Buf} {p k : Nat} : rd b (p + k) = rd (b.drop p) k := by
+  simp [rd, List.getElem?_drop]
+
+/-- inside the string every unit is non-zero -/
+theorem rd_takeWhile_lt : ∀ (l : List Nat) (k : Nat), k < (l.takeWhile (· ≠ 0)).length →
+    ∃ x, rd l k = .ok x ∧ x ≠ 0 ∧ (l.takeWhile (· ≠ 0))[k]? = some x
+  | [], k, h => by simp at h
+  | y :: l, k, h => by
+    by_cases hy : y = 0
+    · simp [List.takeWhile_cons, hy] at h
+    · cases k with
+      | zero => exact ⟨y, by simp [rd], hy, by simp [List.takeWhile_cons, hy]⟩
+      | succ k =>
+        have h' : k < (l.takeWhile (· ≠ 0)).length := by simpa [List.takeWhile_cons, hy] using h
+        obtain ⟨x, h1, h2, h3⟩ := rd_takeWhile_lt l k h'
+        exact ⟨x, by simpa [rd] using h1, h2, by simpa [List.takeWhile_cons, hy] using h3⟩
+
+/-- the unit at the end of the string is the terminator -/
+theorem rd_takeWhile_end : ∀ (l : List Nat), 0 ∈ l → rd l (l.takeWhile (· ≠ 0)).length = .ok 0
+  | [], h => by simp at h
+  | y :: l, h => by
+    by_cases hy : y = 0
+    · simp [List.takeWhile_cons, hy, rd]
+    · have := rd_takeWhile_end l (mem_tail_of_ne h hy)
+      simpa [List.takeWhile_cons, hy, rd] using this
+
+theorem findIdx?_eq_takeWhile {α} (P : α → Bool) : ∀ l : List α,
+    l.findIdx? P = if (l.takeWhile (fun x => !P x)).length < l.length then some (l.takeWhile (fun x => !P x)).length else none
+  | [] => by simp
+  | x :: l => by
+    by_cases h : P x
+    · simp [List.findIdx?_cons, List.takeWhile_cons, h]
+    · simp only [List.findIdx?_cons, List.takeWhile_cons, h, findIdx?_eq_takeWhile P l]
+      simp
+
+
+theorem find?_congr' {α} {p q : α → Bool} : ∀ {l : List α}, (∀ x ∈ l, p x = q x) → l.find? p = l.find? q
+  | [], _ => rfl
+  | x :: l, h => by
+    simp only [List.find?_cons, h x (by simp)]
+    rw [find?_congr' (fun y hy => h y (List.mem_cons_of_mem _ hy))]
+
+theorem strrchrLoop_spec (b : Buf) (p c : Nat) : ∀ l : Nat, l ≤ (Spec.cstr b p).length →
+    strrchrLoop b p c l =
+      .ok ((((List.range l).reverse).find? (fun i => (Spec.cstr b p)[i]? == some c)).map (p + ·)) := by
+  intro l
+  induction l with
+  | zero => intro _; simp [strrchrLoop]
+  | succ l ih =>
+    intro hl
+    obtain ⟨x, h1, _, h3⟩ := rd_takeWhile_lt (b.drop p) l (by unfold Spec.cstr at hl; omega)
+    have h3' : (Spec.cstr b p)[l]? = some x := h3
+    simp only [strrchrLoop, rd_add_eq, h1, ok_bind, List.range_succ, List.reverse_append, List.reverse_cons,
+      List.reverse_nil, List.nil_append, List.singleton_append, List.find?_cons, h3']
+    by_cases hx : x = c
+    · simp [hx]
+    · rw [if_neg hx, ih (by omega)]
+      have : (some x == some c) = false := by simpa using hx
+      rw [this]
+
+
+theorem strstrInner_spec (h n : Buf) : ∀ (nl hl : List Nat) (hi ni f : Nat), h.drop hi = hl → n.drop ni = nl →
+    0 ∈ nl → 0 ∈ hl → nl.length < f →
+    strstrInner h n f hi ni = .ok ((nl.takeWhile (· ≠ 0)).isPrefixOf (hl.takeWhile (· ≠ 0))) := by
+  intro nl
+  induction nl with
+  | nil => intro hl hi ni f _ _ h0; simp at h0
+  | cons y nl ih =>
+    intro hl hi ni f hh hn h0n h0h hf
+    cases f with
+    | zero => simp at hf
+    | succ f =>
+      simp only [strstrInner, rd_of_drop_cons hn, ok_bind]
+      by_cases hy : y = 0
+      · simp [hy]
+      · cases hl with
+        | nil => simp at h0h
+        | cons x hl =>
+          simp only [hy, if_false, rd_of_drop_cons hh, ok_bind]
+          by_cases hxy : x = y
+          · subst hxy
+            simp only [if_true]
+            rw [ih hl (hi + 1) (ni + 1) f (drop_succ_of_drop_cons hh) (drop_succ_of_drop_cons hn) (mem_tail_of_ne h0n hy)
+              (mem_tail_of_ne h0h hy) (by simpa using hf)]
+            simp [List.takeWhile_cons, hy]
+          · rw [if_neg hxy]
+            by_cases hx : x = 0
+            · simp [List.takeWhile_cons, hy, hx]
+            · have : (y == x) = false := by simpa using fun e : y = x => hxy e.symm
+              simp [List.takeWhile_cons, hy, hx, List.isPrefixOf_cons_cons, this]
+
+theorem strstrOuter_spec (h n : Buf) (q : Nat) (h0n : 0 ∈ n.drop q) (hne : (n.drop q).takeWhile (· ≠ 0) ≠ []) :
+    ∀ (hl : List Nat) (hi f : Nat), h.drop hi = hl → 0 ∈ hl → hl.length < f →
+    strstrOuter h n q f hi =
+      .ok (((List.range ((hl.takeWhile (· ≠ 0)).length + 1)).find?
+        (fun i => ((n.drop q).takeWhile (· ≠ 0)).isPrefixOf ((hl.takeWhile (· ≠ 0)).drop i))).map (hi + ·)) := by
+  intro hl
+  induction hl with
+  | nil => intro hi f _ h0; simp at h0
+  | cons x hl ih =>
+    intro hi f hh h0h hf
+    cases f with
+    | zero => simp at hf
+    | succ f =>
+      simp only [strstrOuter, rd_of_drop_cons hh, ok_bind]
+      by_cases hx : x = 0
+      · obtain ⟨y, ys, hys⟩ := List.exists_cons_of_ne_nil hne
+        have e : (x :: hl).takeWhile (· ≠ 0) = [] := by simp [List.takeWhile_cons, hx]
+        rw [if_pos hx, e, hys]
+        simp
+      · simp only [hx, if_false]
+        rw [strstrInner_spec h n (n.drop q) (x :: hl) hi q (n.length + 1) hh rfl h0n h0h (drop_length_lt n q)]
+        simp only [ok_bind]
+        have htw : (x :: hl).takeWhile (· ≠ 0) = x :: hl.takeWhile (· ≠ 0) := by simp [List.takeWhile_cons, hx]
+        rw [htw, List.length_cons, List.range_succ_eq_map, List.find?_cons]
+        simp only [List.drop_zero]
+        cases hm : ((n.drop q).takeWhile (· ≠ 0)).isPrefixOf (x :: hl.takeWhile (· ≠ 0)) with
+        | true => simp
+        | false =>
+          simp only [Bool.false_eq_true, if_false]
+          rw [ih (hi + 1) f (drop_succ_of_drop_cons hh) (mem_tail_of_ne h0h hx) (by simpa using hf), List.find?_map]
+          simp only [Option.map_map]
+          have hf : ((fun x => hi + x) ∘ Nat.succ) = (fun x => hi + 1 + x) := by
+            funext k; simp only [Function.comp]; omega
+          have hP : ((fun i => ((n.drop q).takeWhile (· ≠ 0)).isPrefixOf ((x :: hl.takeWhile (· ≠ 0)).drop i)) ∘ Nat.succ)
+              = (fun i => ((n.drop q).takeWhile (· ≠ 0)).isPrefixOf ((hl.takeWhile (· ≠ 0)).drop i)) := by
+            funext i; simp [Function.comp]
+          rw [hf, hP]
 
 
 end Tetl.C18
